@@ -166,6 +166,28 @@ pub fn inject(p: &Program, rng: &mut rand_chacha::ChaCha8Rng) -> Vec<Defect> {
         let dup = Expr::Assign(vec![(Pat::Var("DUP".into()), Expr::Lit(crate::val::V::int(1))), (Pat::Var("DUP".into()), Expr::Lit(crate::val::V::int(2)))],
                                Box::new(Expr::Prim(4, vec![Expr::Var("DUP".into()), p.body.clone()])));
         out.push(Defect { kind: "assign-dup", ident: "DUP".into(), program: Program { args: p.args.clone(), helpers: p.helpers.clone(), body: dup }, where_: "main".into() });
+        // the repeated name separated by 1..3 other bindings, as a simple name or inside a destructuring pattern
+        use rand::Rng;
+        let gap = rng.random_range(1..=3);
+        let lit = |k: i64| Expr::Lit(crate::val::V::int(k));
+        let mut bs: Vec<(Pat, Expr)> = vec![];
+        let first_in_pattern = rng.random_bool(0.4);
+        let second_in_pattern = rng.random_bool(0.4);
+        let dup_binding = |in_pat: bool, other: &str, k: i64| if in_pat {
+            (Pat::Cons(Box::new(Pat::Var("DUP".into())), Box::new(Pat::Var(other.into()))), Expr::Prim(4, vec![lit(k), lit(k + 1)]))
+        } else {
+            (Pat::Var("DUP".into()), lit(k))
+        };
+        bs.push(dup_binding(first_in_pattern, "DUX", 1));
+        for i in 0..gap {
+            bs.push((Pat::Var(format!("GAP{i}")), lit(10 + i as i64)));
+        }
+        bs.push(dup_binding(second_in_pattern, "DUY", 5));
+        if rng.random_bool(0.5) {
+            bs.push((Pat::Var("GAPZ".into()), lit(20)));
+        }
+        let dup2 = Expr::Assign(bs, Box::new(Expr::Prim(4, vec![Expr::Var("DUP".into()), p.body.clone()])));
+        out.push(Defect { kind: "assign-dup", ident: "DUP".into(), program: Program { args: p.args.clone(), helpers: p.helpers.clone(), body: dup2 }, where_: "main".into() });
     }
     out
 }
